@@ -61,12 +61,13 @@ FreeAns == [st |-> "free", kind |-> "", tag |-> 0 - 1, cap |-> "", exps |-> <<>>
 \*      conc    pairs <<t1, t2>>: local call t1 was being held back when t2 was made (the two were made concurrently, SendCall of t1
 \*              had not returned): no order is defined between them
 \*      lcap    <<tag, capability>>: local calls whose parameters carry a capability of this vat
+\*      lcancel tags of local calls whose caller cancelled its context
 \*      qpar    <<question id, export id>>: exports created / referenced by the parameters of an open question (a bag would be needed for
 \*              several descriptors of one export in one call; the scripts put one capability in a call)
 \*      ptgt    (third component: the path, "" = the result itself, "f0" = its pointer field 0)
 \*      etgt    received calls addressed to an export: <<tag, export id>>
 \*      tight   the script runs with an answer queue of one entry (calls over the limit may be refused: server.Policy)
-FreeEmb == [lseq |-> <<>>, out |-> {}, held |-> {}, ptgt |-> {}, fwd |-> <<>>, fwdres |-> {}, req |-> {}, conc |-> {}, lcap |-> {}, qpar |-> {},
+FreeEmb == [lseq |-> <<>>, out |-> {}, held |-> {}, ptgt |-> {}, fwd |-> <<>>, fwdres |-> {}, req |-> {}, conc |-> {}, lcap |-> {}, qpar |-> {}, lcancel |-> {},
             etgt |-> {}, tight |-> FALSE]
 Fresh == /\ ans = [i \in Ids |-> FreeAns] /\ exp = [i \in Ids |-> [cap |-> "", wire |-> 0]]
          /\ qst = [i \in Ids |-> "free"] /\ qtag = [i \in Ids |-> 0 - 1] /\ qrel = [i \in Ids |-> FALSE] /\ imp = [i \in Ids |-> 0] /\ lh = {}
@@ -320,7 +321,8 @@ LocalResult == /\ Ev("l-result") /\ Consume
                /\ (E.tag \in LTags /\ E.kind = "ok") => E.n = E.tag        \* every method body answers with its call's tag
                /\ ~\E r \in lres : r[1] = E.tag                             \* resolves at most once
                \* with the peer's result, if the peer answered
-               /\ (\E q \in Ids : qtag[q] = E.tag /\ \E p \in pret : p[1] = q /\ p[3] = E.tag) =>
+               \* (a call its caller cancelled may fail with the cancellation even though the peer's Return arrived meanwhile)
+               /\ (E.tag \notin emb.lcancel /\ \E q \in Ids : qtag[q] = E.tag /\ \E p \in pret : p[1] = q /\ p[3] = E.tag) =>
                      (\E p \in pret : p[3] = E.tag /\ ((p[2] = "results" /\ E.kind = "ok" /\ E.n = E.tag) \/ (p[2] = "exception" /\ E.kind = "err")))
                /\ lres' = lres \cup {<<E.tag, E.kind>>}
                /\ Keep(<<ans, exp, qst, qtag, qrel, imp, lh, started, callseq, appret, shut, caps, pret, closed, aborted, emb>>)
@@ -334,6 +336,9 @@ LCallCap == /\ Ev("l-call") /\ E.cap # "" /\ Consume
             /\ caps' = caps \cup {E.cap}
             /\ emb' = [emb EXCEPT !.lcap = @ \cup {<<E.tag, E.cap>>}]
             /\ Keep(<<ans, exp, qst, qtag, qrel, imp, lh, started, callseq, appret, shut, lres, pret, closed, aborted>>)
+\* the caller of local call E.tag cancels its context
+LCancel == /\ Ev("l-cancel") /\ Consume /\ emb' = [emb EXCEPT !.lcancel = @ \cup {E.tag}]
+           /\ Keep(<<ans, exp, qst, qtag, qrel, imp, lh, started, callseq, appret, shut, caps, lres, pret, closed, aborted>>)
 Policy == /\ Ev("policy") /\ Consume /\ emb' = [emb EXCEPT !.tight = TRUE]
           /\ Keep(<<ans, exp, qst, qtag, qrel, imp, lh, started, callseq, appret, shut, caps, lres, pret, closed, aborted>>)
 \* an error report that blames the peer: the peers of these scripts are well formed, so there is none while the connection is open
@@ -341,7 +346,7 @@ Reported == /\ Ev("reported") /\ Consume
             /\ (E.kind = "blames-peer" => closed)
             /\ Keep(<<ans, exp, qst, qtag, qrel, imp, lh, started, callseq, appret, shut, caps, lres, pret, closed, aborted, emb>>)
 Passive == /\ (Ev("l-bootstrap") \/ (Ev("l-call") /\ E.cap = "") \/ Ev("app-cancelled") \/ Ev("fault")
-               \/ Ev("transport-closed") \/ Ev("done") \/ Ev("end") \/ Ev("peer-deliver") \/ Ev("peer-echo") \/ Ev("view") \/ Ev("held") \/ Ev("hold-expired") \/ Ev("released") \/ Ev("l-cancel"))
+               \/ Ev("transport-closed") \/ Ev("done") \/ Ev("end") \/ Ev("peer-deliver") \/ Ev("peer-echo") \/ Ev("view") \/ Ev("held") \/ Ev("hold-expired") \/ Ev("released"))
            /\ Consume
            /\ Keep(<<ans, exp, qst, qtag, qrel, imp, lh, started, callseq, appret, shut, caps, lres, pret, closed, aborted, emb>>)
 
@@ -367,7 +372,7 @@ CloseReturned == /\ Ev("close-returned") /\ Consume
 
 Next == Reset \/ RecvBootstrap \/ RecvCall \/ RecvFinish \/ RecvRelease \/ RecvReturn \/ RecvDisembargo \/ RecvOther
         \/ SendReturn \/ SendReturnNoBody \/ SendReturnForwarded \/ SendQuestion \/ SendFinish \/ SendRelease \/ SendAbort
-        \/ SendDisembargoSender \/ SendDisembargoEcho \/ SendOther \/ LPCall \/ LCallCap \/ Reported \/ Policy
+        \/ SendDisembargoSender \/ SendDisembargoEcho \/ SendOther \/ LPCall \/ LCallCap \/ Reported \/ Policy \/ LCancel
         \/ AppStart \/ AppReturn \/ Shutdown \/ CloseInvoked \/ LHandle \/ LRelease \/ LocalResult \/ Passive \/ Quiesce \/ QuiesceRefs \/ CloseReturned
 Spec == Init /\ [][Next]_vars
 
